@@ -51,6 +51,23 @@ CLAIMED = {
         note=('Trusts numpy/scipy; single-threaded BLAS so that same-process repeats are bitwise equal (re-validated by selftest-determinism). '
               'Interleaving is at public-API-call granularity (lentil has no threads or locks; pre-emption inside a call would test a '
               'thread-safety property nobody stated). cosmic_rays and smear(angle=None), which consume the global RNG by design, are exercised under C18.')),
+    'C13': dict(
+        design='7.4',
+        text=('Seeded deterministic simulation of 1-3 callers over a shared pool of 2-5 spectra (identical, nested, overlapping, disjoint '
+              'ranges; uniform and non-uniform grids; unitless and flux-density values; m, um, nm, angstrom): histories of the five binary '
+              'operators in method and dunder form with every sampling (min/left/right/float), interpolation (linear/quadratic/cubic) and fill '
+              'option, scalar / vector / reflected operands and operands that must be refused (wrong-length vector, non-numeric), edits of '
+              'results, and -- the history dimension -- to(unit) calls by the owner on shared spectra between uses, followed by a repeat of an '
+              'earlier operation and by operand-swapped twins. Oracles: result == operator applied to the operands\' interpolated values on '
+              'the uniform union grid (list model + scipy interp1d, executed from the operands\' public pre-state); scalar/vector ops '
+              'element-wise on the unchanged grid; a+b == b+a and a*b == b*a as physical spectra; same operation after a representation '
+              'change gives the same physical spectrum; every spectrum in the store other than a documented edit target is byte-identical '
+              '(representation included) after every call; result is a new object; other callers\' results equal their solo runs '
+              'numerically. Exploration.'),
+        note=('Comparisons "as physical spectra" are made only where the left operand\'s value-unit label is a correct label for the result '
+              '(unitless with unitless; density*/unitless; density+-density) and fill value 0 when densities are involved; grid length is '
+              'judged only when span/dwave is not within 1e-6 of an integer; grid points within 1e-9 of an operand end are not compared. '
+              'Known finding: unitless*density loses the density label.')),
     'C15': dict(
         design='7.5',
         text=('Seeded deterministic simulation of a classical stateful object: an editor applies histories (4-25 steps) of '
